@@ -160,6 +160,7 @@ func (c *conn) finish() {
 	if c.sr.pr != nil {
 		c.sr.pr.Close()
 	}
+	vevent("finish.sr", c)
 	c.sr.Unlock()
 	c.notifyClientGone()
 }
